@@ -2404,12 +2404,15 @@ class XonshParser(Parser):
         return None
 
     def proc_cmd(self) -> Any | None:
-        # proc_cmd: sub_procs | '@(' ~ (bare_genexp | expressions) ')' | '@$(' ~ proc_cmds ')' | env_atom | search_path | proc_macro_start ~ ((cmd_group | any_cmd))* | cmd_group | cmd_name
+        # proc_cmd: &sub_proc_start ~ sub_procs | '@(' ~ (bare_genexp | expressions) ')' | '@$(' ~ proc_cmds ')' | env_atom | search_path | proc_macro_start ~ ((cmd_group | any_cmd))* | cmd_group | cmd_name
         mark = self._mark()
         _lnum, _col = self._tokenizer.peek().start
-        if sub_procs := self.sub_procs():
+        cut = False
+        if (self.positive_lookahead(self.sub_proc_start)) and (cut := True) and (sub_procs := self.sub_procs()):
             return sub_procs
         self._reset(mark)
+        if cut:
+            return None
         cut = False
         if (self.expect("@(")) and (cut := True) and (a := self._tmp_36()) and (self.expect(")")):
             return self.proc_pyexpr(a, **self.span(_lnum, _col))
@@ -2441,6 +2444,15 @@ class XonshParser(Parser):
             return cmd_name
         self._reset(mark)
         return None
+
+    def sub_proc_start(self) -> Any | None:
+        # sub_proc_start: '$(' | '$[' | '![' | '!('
+        return self.seq_alts(
+            (self.expect, "$("),
+            (self.expect, "$["),
+            (self.expect, "!["),
+            (self.expect, "!("),
+        )
 
     def proc_macro_start(self) -> Any | None:
         # proc_macro_start: &cmd_name '!'
